@@ -1,13 +1,19 @@
 SPEC = dict(
     props_file="C05",
     legs=[dict(family="cpc", oracles=["prop_ok"], profiles=["debug", "release"], n_quick=None, n_thorough=None,
-               n_search=40, panic_is_violation=True)],
+               n_search=40, panic_is_violation=True),
+          # the boundary of the domain: streams that exceed the surprising-value table's capacity; the model is Stuck
+          # exactly where the crate panics (the oracle demands the panic at the predicted pair and nowhere else)
+          dict(family="cpc", focus="overflow", oracles=["prop_ok"], profiles=["debug", "release"], n_quick=None,
+               n_thorough=None, panic_is_violation=False)],
     level_text="Theorems (Props/C05.v) over an executable model of cpc/sketch.rs + cpc/mod.rs (one Gallina function per Rust "
                "function: row_col_update with the first-interesting-column shortcut, update_sparse, promote_sparse_to_windowed, "
                "update_windowed with the inverted early zone / window byte / late zone, move_window, build_bit_matrix, "
                "determine_flavor, determine_correct_offset, update_hip and refresh_kxp in primitive binary64 floats; every "
-               "debug_assert!/assert!/expect/index on the path is a Stuck outcome). For ALL lg_k in 4..=26 and ALL streams of "
-               "(row,col) pairs with 8C < 475K (the domain in which the window offset stays <= 56): the sketch never panics; "
+               "debug_assert!/assert!/expect/index on the path is a Stuck outcome, incl. the capacity asserts of PairTable::rebuild). "
+               "For ALL lg_k in 4..=26 and ALL streams of (row,col) pairs with 8C < 475K (the window offset stays <= 56) whose "
+               "surprising values always fit the table (cpc_fits: at most 3/4 * 2^min(26, lg_k+5) = 24K pairs for lg_k <= 21, "
+               "counted after every pair at the offset before and after it): the sketch never panics; "
                "build_bit_matrix returns exactly the OR-matrix of the pairs seen; num_coupons = its popcount = number of distinct "
                "pairs; window_offset = determine_correct_offset(lg_k, C) <= 56; the window exists iff flavor > Sparse; "
                "first_interesting_column <= offset and every column below it is full; validate() = true "
@@ -15,7 +21,9 @@ SPEC = dict(
                "state rebuilt from any matrix at any offset <= 56 represents that matrix). c05_cpc_flavor_thresholds: the window "
                "moves exactly when 8C >= (27+8w)K, by one column, to the correct offset. c05_cpc_flavor_spec / "
                "c05_correct_offset_spec: closed forms of the two threshold functions. c05_hashed_pairs_valid: the pair derived "
-               "from any 128-bit hash is admissible, so the public update() is covered. "
+               "from any 128-bit hash is admissible, so the public update() is covered. c05_table_capacity_needed: a crafted "
+               "stream inside 8C < 475K on which the model is Stuck (table capacity) - the crate panics at the same pair; "
+               "c05_table_load: the table of any represented state holds exactly the surprising values of its matrix. "
                "The model is tied to the crate by replaying generated streams (crafted column fills driving offsets 1..56 with "
                "surprising zeros/ones, right-to-left fills, geometric random pairs, hashed items; lg_k 4..12, thorough: 13..16 and "
                "sparse 21/26) in debug and release builds and comparing after every update C, offset, first interesting column, "
@@ -32,11 +40,15 @@ SPEC = dict(
               "streams and all lg_k + differential correspondence model vs crate (debug+release) + exact-set oracle",
     trusted=["(row,col) of hashed items are computed by tools/pyref.py (reference MurmurHash3, cross-checked in C16); the model "
              "consumes h1,h2 and derives the pair itself (row_col_of_hash), the crate hashes the item",
-             "PairTable (cpc/pair_table.rs) slot layout is modelled as a finite set, not verified; in particular its capacity "
-             "limit (rebuild asserts lg_size + 1 <= lg_k + 6, i.e. more than 24K surprising values panic) is outside the model: "
-             "hashing cannot produce that many surprises, hook-driven streams are generated below it",
+             "PairTable (cpc/pair_table.rs) slot layout is modelled as a finite set, not verified; its capacity limit "
+             "(rebuild asserts lg_size <= 26 and lg_size + 1 <= lg_k + 6) IS modelled (Stuck) and is a hypothesis of the theorems; "
+             "a second leg generates streams that exceed it and demands the panic on both sides at the predicted pair",
              "u32/u64 overflow is outside the C05 theorems (unbounded N); see C17 for determine_flavor / determine_pseudo_phase"],
     assumptions=["lg_k in 4..=26; every pair has row < K and is not the code u32::MAX (true for every pair update() derives from a hash)",
                  "8 * num_coupons < 475 * K (C < 59.375 K): beyond it the correct window offset exceeds 56 and the crate, like "
-                 "Java/C++, asserts; unreachable by hashing"],
+                 "Java/C++, asserts; unreachable by hashing",
+                 "cpc_fits: after every pair the number of surprising values (all coupons while sparse; zeros before + ones after "
+                 "the window otherwise, at the offset before the pair and at the correct offset after it) is at most "
+                 "3/4 * 2^min(26, lg_k + 5) (24 K pairs for lg_k <= 21): beyond it PairTable::rebuild asserts (Java/C++ have the "
+                 "same limit); unreachable by hashing, reachable by crafted (row,col) streams (c05_table_capacity_needed)"],
 )
